@@ -587,9 +587,10 @@ class CausalInference(object):
         # Step 2: Check if adjustment set is provided, otherwise try calculating it.
         if adjustment_set is None:
             do_vars = [var for var, state in do.items()]
+            # The do variables themselves are fixed, hence never adjusted for.
             adjustment_set = set(
                 chain(*[self.model.predecessors(var) for var in do_vars])
-            )
+            ) - set(do_vars)
             if len(adjustment_set.intersection(self.model.latents)) != 0:
                 raise ValueError(
                     "Not all parents of do variables are observed. Please specify an adjustment set."
@@ -637,7 +638,15 @@ class CausalInference(object):
                     },
                 )
         else:
-            p_z = infer.query(adjustment_set, evidence=evidence, show_progress=False)
+            p_z = infer.query(adjustment_set, show_progress=False)
+
+        # Evidence on variables outside the do and adjustment sets is applied
+        # inside the sum: \sum_{z} p(variables, evidence | do, z) p(z)
+        other_evidence = [
+            (var, state)
+            for var, state in evidence.items()
+            if var not in do and var not in adjustment_set
+        ]
 
         adj_states = []
         for var in adjustment_set:
@@ -654,9 +663,12 @@ class CausalInference(object):
             adj_evidence = {
                 var: state for var, state in zip(adjustment_set, state_comb)
             }
-            evidence = {**do, **adj_evidence}
             values.append(
-                infer.query(variables, evidence=evidence, show_progress=False)
+                infer.query(
+                    variables + [var for var, _ in other_evidence],
+                    evidence={**do, **adj_evidence},
+                    show_progress=False,
+                ).reduce(other_evidence, inplace=False)
                 * p_z.get_value(**adj_evidence)
             )
 
